@@ -184,8 +184,45 @@ def render (r : Except Str SelectStmt) : String :=
   | .ok st => "ok " ++ sexpStmt st
   | .error e => "err " ++ encStr e
 
+/-- Operand of `types.eval`: the expression and, for a reference, the type the mapper gives it. -/
+def evalOperand (kind : String) (name : Str) : Option (Expr × Option DataType) :=
+  match kind with
+  | "I" => some (.integer 1, none)
+  | "U" => some (.unsigned 1, none)
+  | "N" => some (.number ⟨false, 15, 1⟩, none)
+  | "S" => some (.string ['s'], none)
+  | "B" => some (.boolean true, none)
+  | "D" => some (.duration 1, none)
+  | "X" => some (.nil, none)
+  | k =>
+    if k.startsWith "r" then do
+      let n ← (k.drop 1).toString.toNat?
+      let t ← dataTypeOfNat n
+      pure (.varRef name .Unknown, some t)
+    else none
+
 def handle (stream : String) (args : List String) : Option String :=
   match stream, args with
+  | "types.less", [a, b] =>
+    match decInt a, decInt b with
+    | some x, some y =>
+      match dataTypeOfNat x.toNat, dataTypeOfNat y.toNat with
+      | some s, some t => some (if s.lessThan t then "true" else "false")
+      | _, _ => some "bad-arg"
+    | _, _ => some "bad-arg"
+  | "types.eval", [o, l, r] =>
+    match decInt o, evalOperand l ['l'], evalOperand r ['r'] with
+    | some op, some (le, lt), some (re, rt) =>
+      match Token.all[op.toNat]? with
+      | none => some "bad-arg"
+      | some tok =>
+        let m : TypeMapper :=
+          { mapType := fun _ f => if f = ['l'] then lt.getD .Unknown else if f = ['r'] then rt.getD .Unknown else .Unknown,
+            callType := none }
+        match evalTypeE m (resolveRef m [.measurement { name := ['m'] }]) (.binary tok le re) with
+        | none => some "err"
+        | some t => some ("ok " ++ toString t.toNat)
+    | _, _, _ => some "bad-arg"
   | "fields.rewrite", ct :: sch :: x :: l :: words =>
     match decSchema sch, decMatches x, decLower l with
     | some schema, some (names, pairs), some tbl =>
